@@ -17,7 +17,8 @@ HK(s) == CASE s = "c" -> << FALSE, TRUE, FALSE >> [] s = "ct" -> << FALSE, TRUE,
            [] s = "t" -> << FALSE, FALSE, TRUE >> [] OTHER -> << FALSE, FALSE, FALSE >>
 MCCfgs ==
   { [BaseCfg EXCEPT !.proxy = p, !.nd = HK(h)[1], !.ndc = HK(h)[2], !.ndtc = HK(h)[3], !.tmo = t,
-                    !.puser = (p # "none"), !.ppass = (p # "none")] :
+                    !.puser = (p # "none"), !.ppass = (p # "none"),
+                    !.trace = (t \in {"ctx", "bothl"})] :   \* httptrace hooks installed in two of the deadline settings
       p \in Proxies, h \in HookSets, t \in Tmos }
 
 ReplyOf(k) ==
